@@ -136,7 +136,7 @@ claim("C16",
 
 claim("C11",
       "MatID's own structural steps for 2D systems, executed symbolically from the real source for each choice of the non-periodic axis: set_system analyses a deep copy whose atoms and periodic vectors are untouched and whose "
-      "third vector keeps its direction with length max(5, 3*thickness) (a function of the atoms only); get_thickness = extent of the scaled coordinate times the vector length (generic atom count); the 2D branch of "
+      "third vector keeps its direction and orientation (non-zero); get_thickness = extent of the scaled coordinate times the vector length (generic atom count); the 2D branch of "
       "get_conventional_system picks the first row of the transformation matrix along the non-periodic axis (MatIDError otherwise), makes pbc (T,T,F) with that vector last and the other two kept, wraps/centres, and "
       "minimises the cell along the last axis with min_2d_thickness (so thickness = max(extent, min_2d_thickness), atoms inside: contract of get_minimized_cell proved under C20); the id string gets the 2D prefix.",
       "All invariances (vacuum, axis relabelling, supercells, rigid motions, flips, atom order) rest on spglib (A-SPG) and are not proved; callee contracts from C20/C05; A-HASH.",
